@@ -559,13 +559,23 @@ def eval_case(ctx, exe, case, oracle_bits=11):
     if o["minimal"] and out["stats"].get("unverified_models"):
         out["stats"]["antichain_not_judged"] = True
     elif o["minimal"]:
+        nest = []
         for a in range(len(reported)):
             for b in range(len(reported)):
                 if a != b and reported[a] | reported[b] == reported[b] and reported[a] != reported[b]:
-                    out["viol"].append({"kind": "antichain", "model": b,
-                                        "text": "-minimal: model bits %d strictly contains model bits %d" % (reported[b], reported[a])})
+                    nest.append({"kind": "antichain", "model": b,
+                                 "text": "-minimal: model bits %d strictly contains model bits %d" % (reported[b], reported[a])})
         if len(set(reported)) != len(reported):
-            out["viol"].append({"kind": "antichain", "model": -1, "text": "-minimal: a model was reported twice: %s" % reported})
+            nest.append({"kind": "antichain", "model": -1, "text": "-minimal: a model was reported twice: %s" % reported})
+        # theorem minimal_antichain needs an exact LP oracle (OracleOK). When the in-process table of solve_with_mask answers is
+        # NOT consistent (a subset feasible while a superset is infeasible, or a support that is infeasible on its own) and the
+        # Lean search on that very table reproduces the reported sequence, the nesting is caused by the LP answers, not by the search
+        if nest and out["stats"].get("search_checked") and out["stats"].get("oracle_ok") is False and \
+                not any(c["what"].startswith("search differs") for c in out["corr"]) and not diffs:
+            out["findings"].append({"key": "minimal-inconsistent-lp", "model": nest[0]["model"], "bits": reported,
+                                    "text": "; ".join(v["text"] for v in nest)[:300]})
+        else:
+            out["viol"] += nest
     out["reported"] = reported
     return out
 
@@ -638,9 +648,9 @@ def run(ctx):
     ok = ctx.prove(["PhreeqcVerif.Properties.C18"])
     ctx.build_lib()
     exe = ctx.build_harness("ph_inverse")
-    n = ctx.n(110, 2500)
+    n = ctx.n(500, 6000)
     if not ok:
-        n = max(n, 2500)
+        n = max(n, 6000)
     cases = seed_cases()
     for i in range(n):
         cases.append(gen.gen_problem(ctx.rng, big=(i % 5 == 0)))
@@ -699,6 +709,9 @@ def run(ctx):
             seen_findings[fnd["key"]] = 1
             what = {"cl1-unverified": "a reported vector fails the engine's own test_cl1_solution() (never called by solve_with_mask / "
                                       "minimal_solve, whose final solve_with_mask return code is ignored): not a mole-balance model",
+                    "minimal-inconsistent-lp": "-minimal reported nested models; the tabulated solve_with_mask answers are inconsistent "
+                                               "(feasibility not monotone / support infeasible: cl1 round-off failures) and the proved search "
+                                               "reproduces the reported sequence on that table",
                     "range-silent": "range LP returned kode 0 but min..max does not bracket the (verified) reported value",
                     "range-cap": "a reported value beyond the -range limit (default 1000) lies outside its reported min..max "
                                  "(the range LPs minimise |x -/+ range_max|; documented limit)",
@@ -796,5 +809,5 @@ MANIFEST = dict(
          "counters of solve_inverse; -minimal antichain on reported bit sets.",
     note="Trusted: Lean kernel, harness/ph_inverse.cpp (friend access, resolution of reaction tokens to rows), tools/props/c18.py "
          "(tolerances: matrix 1e-12 rel, balances max(1e-8, 1e4*toler), ranges max(1e-6, 1e4*toler)). cl1 is an oracle (not verified); "
-         "isotope rows/columns are not modelled (ex18-type problems are counted only); INVERSE_CL1MP is not compiled in. Findings: range-lp-error (known), cl1-unverified, range-silent, range-cap.",
+         "isotope rows/columns are not modelled (ex18-type problems are counted only); INVERSE_CL1MP is not compiled in. Known findings: range-lp-error, cl1-unverified, range-silent, range-cap; new: minimal-inconsistent-lp.",
 )
